@@ -33,6 +33,13 @@ func (r *Recorder) Add(client int, in any, call int64, out any, ret int64) {
 	r.Ops = append(r.Ops, porcupine.Operation{ClientId: client, Input: in, Call: call, Output: out, Return: ret})
 }
 
+// Snapshot returns a copy of the operations recorded so far.
+func (r *Recorder) Snapshot() []porcupine.Operation {
+	r.mu.Lock()
+	defer r.mu.Unlock()
+	return append([]porcupine.Operation(nil), r.Ops...)
+}
+
 func (r *Recorder) Len() int {
 	r.mu.Lock()
 	defer r.mu.Unlock()
